@@ -36,7 +36,13 @@ func (q Quote) Build() *bt.FeeQuote {
 			fq.AddQuote(ft, nil)
 			return
 		}
-		fq.AddQuote(ft, &bt.Fee{FeeType: ft, MiningFee: bt.FeeUnit{Satoshis: r.Sat, Bytes: r.Bytes}, RelayFee: bt.FeeUnit{Satoshis: r.Sat, Bytes: r.Bytes}})
+		// the relay fee plays no part in any estimate: it is deliberately different from the mining fee (and different
+		// for the two fee types), so that an estimate that reads it is off
+		relay := bt.FeeUnit{Satoshis: 2*r.Sat + 3, Bytes: 3*r.Bytes + 1}
+		if ft == bt.FeeTypeData {
+			relay = bt.FeeUnit{Satoshis: 5*r.Sat + 1, Bytes: 2*r.Bytes + 7}
+		}
+		fq.AddQuote(ft, &bt.Fee{FeeType: ft, MiningFee: bt.FeeUnit{Satoshis: r.Sat, Bytes: r.Bytes}, RelayFee: relay})
 	}
 	set(bt.FeeTypeStandard, q.Std)
 	set(bt.FeeTypeData, q.Data)
@@ -193,8 +199,19 @@ var Two64 = new(big.Int).Lsh(big.NewInt(1), 64)
 
 // Unsigned P2PKH input spec with a final sequence number.
 func In(r *common.Rand, sats uint64) txgen.InSpec {
-	return txgen.InSpec{Txid: common.Hex(r.Bytes(32)), Vout: uint32(r.Intn(4)), Seq: 0xffffffff, Sats: sats,
+	in := txgen.InSpec{Txid: common.Hex(r.Bytes(32)), Vout: uint32(r.Intn(4)), Seq: 0xffffffff, Sats: sats,
 		Prev: common.Hex(P2PKH(r.Bytes(20))), UnlockNil: true}
+	return outpointShapes(r, in)
+}
+
+// outpointShapes: one input in sixteen spends an all-zero transaction id (placeholder inputs do; together with a
+// final sequence number or index 0xffffffff that is what Tx.IsCoinbase looks for): sizes and fees do not depend on it
+func outpointShapes(r *common.Rand, in txgen.InSpec) txgen.InSpec {
+	if r.Intn(16) == 0 {
+		in.Txid = common.Hex(make([]byte, 32))
+		in.Vout = []uint32{0, 0xffffffff, 1}[r.Intn(3)]
+	}
+	return in
 }
 
 func Repeat(b byte, n int) []byte { return bytes.Repeat([]byte{b}, n) }
@@ -318,8 +335,8 @@ func Fill(r *common.Rand, n int) []byte {
 
 // InCheap: like In, built from Fill.
 func InCheap(r *common.Rand, sats uint64) txgen.InSpec {
-	return txgen.InSpec{Txid: common.Hex(Fill(r, 32)), Vout: uint32(r.Intn(4)), Seq: 0xffffffff, Sats: sats,
-		Prev: common.Hex(P2PKH(Fill(r, 20))), UnlockNil: true}
+	return outpointShapes(r, txgen.InSpec{Txid: common.Hex(Fill(r, 32)), Vout: uint32(r.Intn(4)), Seq: 0xffffffff, Sats: sats,
+		Prev: common.Hex(P2PKH(Fill(r, 20))), UnlockNil: true})
 }
 
 func varintLen(n uint64) uint64 {
